@@ -478,6 +478,11 @@ func genEngineCases(c *Ctx) []string {
 			ec.mode = "lp"
 			ls = append(ls, ec.String())
 		}
+		if i%4 == 1 {
+			// ... and with a new engine per request around state and cache objects the client keeps
+			ec.mode = "ws"
+			ls = append(ls, ec.String())
+		}
 	}
 	return ls
 }
@@ -1047,6 +1052,10 @@ func genScenarioCases(c *Ctx, n int) []string {
 		ls = append(ls, ec.String())
 		if ec.preferLp || i%4 == 3 {
 			ec.mode = "lp"
+			ls = append(ls, ec.String())
+		}
+		if i%4 == 1 || len(ec.firsts) > 0 {
+			ec.mode = "ws"
 			ls = append(ls, ec.String())
 		}
 	}
